@@ -1,2 +1,101 @@
-(** C06 — statements only; see Proofs/. *)
-From RRSS Require Import Base.Outcome.
+(** C06 — Arrays are independent values with queue and dictionary behaviour.
+    Statements only; proofs in Proofs/ArrayLaws.v. *)
+From Coq Require Import List ZArith NArith Bool.
+From RRSS Require Import Base.Outcome Base.Chars Base.F64 Base.F64Text Exec.Val Exec.Ops Front.Ast Exec.Env Proofs.ArrayLaws.
+Import ListNotations.
+Open Scope N_scope.
+
+(** writing at an index beyond the end extends the sequence with mysterious; the dictionary, and
+    every other cell, is untouched *)
+Theorem C06_write_extends_with_mysterious :
+  forall a d n nv, f_to_usize n < size_budget ->
+  exists a', assign_at (VArr a d) (VNum n) nv = Ok (VArr a' d) /\
+             len a' = N.max (len a) (f_to_usize n + 1) /\
+             (forall j, len a <= j -> j < len a' -> j <> f_to_usize n -> nth_N a' j = Some VUndef) /\
+             (forall j, j < len a -> j <> f_to_usize n -> nth_N a' j = nth_N a j).
+Proof. exact write_extends_with_mysterious. Qed.
+
+Theorem C06_read_after_write_numeric :
+  forall a d n nv, f_to_usize n < size_budget ->
+  (let* v' := assign_at (VArr a d) (VNum n) nv in v_index v' (VNum n)) = Ok nv.
+Proof. exact read_after_write_numeric. Qed.
+
+(** the dictionary is keyed by non-numeric scalars *)
+Theorem C06_read_after_write_dict :
+  forall a d k dk nv, dkey_of k = Some dk ->
+  (let* v' := assign_at (VArr a d) k nv in v_index v' k) = Ok nv.
+Proof. exact read_after_write_dict. Qed.
+
+Theorem C06_write_dict_frame :
+  forall a d k dk nv, dkey_of k = Some dk ->
+  exists d', assign_at (VArr a d) k nv = Ok (VArr a d') /\
+             forall k2, dkey_eqb k2 dk = false -> dict_get k2 d' = dict_get k2 d.
+Proof. exact write_dict_frame. Qed.
+
+Theorem C06_read_missing_is_mysterious :
+  forall a d n, len a <= f_to_usize n -> v_index (VArr a d) (VNum n) = Ok VUndef.
+Proof. exact read_missing_is_mysterious. Qed.
+
+Theorem C06_read_missing_key_is_mysterious :
+  forall a d k dk, dkey_of k = Some dk -> dict_get dk d = None -> v_index (VArr a d) k = Ok VUndef.
+Proof. exact read_missing_key_is_mysterious. Qed.
+
+(** rock appends, turning a scalar into a one-element array first *)
+Theorem C06_rock_appends : forall a d vs, v_push (VArr a d) vs = Ok (VArr (a ++ vs) d).
+Proof. exact rock_appends. Qed.
+
+Theorem C06_rock_coerces_scalar :
+  forall v vs, is_arr v = false -> v <> VUndef -> v_push v vs = Ok (VArr (v :: vs) []).
+Proof. exact rock_coerces_scalar. Qed.
+
+(** roll removes and yields the first element: rocks followed by rolls are a FIFO queue *)
+Theorem C06_rock_then_roll_fifo :
+  forall a d vs, (let* v := v_push (VArr a d) vs in roll_n (length (a ++ vs)) v) = Ok (VArr [] d, a ++ vs).
+Proof. exact rock_then_roll_fifo. Qed.
+
+Theorem C06_roll_empty_is_mysterious : forall d, v_pop (VArr [] d) = Ok (VArr [] d, VUndef).
+Proof. exact roll_empty_is_mysterious. Qed.
+
+(** printed, compared with a number or used in arithmetic, an array counts as its length *)
+Theorem C06_array_prints_length :
+  forall a d, to_string_for_output (VArr a d) = Ok (f64_display (f_of_N (len a))).
+Proof. exact array_prints_length. Qed.
+
+Theorem C06_array_arith_is_length :
+  forall a d b, is_str b = false -> b <> VNull ->
+  v_plus (VArr a d) b = v_plus (VNum (f_of_N (len a))) (v_decay b) /\
+  v_subtract (VArr a d) b = v_subtract (VNum (f_of_N (len a))) (v_decay b) /\
+  v_divide (VArr a d) b = v_divide (VNum (f_of_N (len a))) (v_decay b).
+Proof. exact array_arith_is_length. Qed.
+
+Theorem C06_array_compares_as_length :
+  forall a d b, match b with VNum _ | VNull | VUndef => True | _ => False end ->
+  v_equals (VArr a d) b = v_equals (VNum (f_of_N (len a))) (match b with VNull => VNum fzero | _ => b end) /\
+  v_compare (VArr a d) b = match v_compare (VNum (f_of_N (len a))) (match b with VNull => VNum fzero | _ => b end) with
+                           | Err (InvalidComparison _ _) => Err (InvalidComparison (VArr a d) b)
+                           | r => r
+                           end.
+Proof. exact array_compares_as_length. Qed.
+
+(** indexing something that is not indexable, or with an array as key, is an error *)
+Theorem C06_not_indexable_error :
+  forall v k, match v with VStr _ | VArr _ _ => False | _ => True end -> v_index v k = Err (NotIndexable v).
+Proof. exact not_indexable_error. Qed.
+
+Theorem C06_array_key_error :
+  forall a d ka kd,
+  v_index (VArr a d) (VArr ka kd) = Err (InvalidKey (VArr ka kd)) /\
+  forall nv, assign_at (VArr a d) (VArr ka kd) nv = Err (InvalidKey (VArr ka kd)).
+Proof. exact array_key_error. Qed.
+
+(** copies are independent: a store into one variable never changes what another variable holds
+    (model values are immutable; that the Rust copies made through Rc are independent is tied by the
+    EXEC array-history suite, not proved) *)
+Theorem C06_store_other_variable_unchanged :
+  forall n m v ss, varname_eqb (lower_name n) (lower_name m) = false ->
+  find_var n (store_var m v ss) = find_var n ss.
+Proof. exact store_other_variable_unchanged. Qed.
+
+Print Assumptions C06_write_extends_with_mysterious.
+Print Assumptions C06_rock_then_roll_fifo.
+Print Assumptions C06_store_other_variable_unchanged.
